@@ -223,6 +223,8 @@ pub proof fn lemma_total_nonneg(ls: Seq<LineP>)
 pub struct FixedStruct { _p: u8 }
 impl FixedStruct {
     pub uninterp spec fn dt_spec(&self) -> DateTimeL;
+    #[verifier::external_body]
+    pub fn dt(&self) -> (r: &DateTimeL) ensures *r == self.dt_spec() { unimplemented!() }
     /// R(m): the text the record renders into a buffer of `buflen` bytes (cut short if it does not fit)
     pub uninterp spec fn render(&self, buflen: int) -> Seq<u8>;
     /// the range of R(m) that holds the record's own datetime text (highlighted in colour output)
@@ -254,6 +256,8 @@ pub type DtBegEndPairOpt = Option<DtBegEndPair>;
 pub struct Evtx { _p: u8 }
 impl Evtx {
     pub uninterp spec fn dt_spec(&self) -> DateTimeL;
+    #[verifier::external_body]
+    pub fn dt(&self) -> (r: &DateTimeL) ensures *r == self.dt_spec() { unimplemented!() }
     pub uninterp spec fn data(&self) -> Seq<u8>;
     pub uninterp spec fn hl(&self) -> DtBegEndPairOpt;
     #[verifier::external_body]
@@ -265,6 +269,8 @@ impl Evtx {
 pub struct JournalEntry { _p: u8 }
 impl JournalEntry {
     pub uninterp spec fn dt_spec(&self) -> DateTimeL;
+    #[verifier::external_body]
+    pub fn dt(&self) -> (r: &DateTimeL) ensures *r == self.dt_spec() { unimplemented!() }
     pub uninterp spec fn data(&self) -> Seq<u8>;
     pub uninterp spec fn hl(&self) -> DtBegEndPairOpt;
     #[verifier::external_body]
@@ -870,20 +876,66 @@ impl PrinterLogMessage {
 //@end
 
 /// D(m): the datetime field text for a message whose datetime is `dt`, under the printer's format and zone (opaque: chrono)
-pub uninterp spec fn dt_text(fmt: Seq<u8>, dt: DateTimeL) -> Seq<u8>;
+pub uninterp spec fn chrono_text(fmt: Seq<u8>, tz: FixedOffset, inst: int) -> Seq<u8>;
+/// D(m) = chrono's rendering of the message's instant in the zone asked for with --prepend-tz / -u / -l, under --prepend-dt-format
+pub open spec fn dt_text(fmt: Seq<u8>, tz: FixedOffset, dt: DateTimeL) -> Seq<u8> { chrono_text(fmt, tz, instant(dt)) }
+
+// ---- assumed: chrono's formatting interface (with_timezone keeps the instant and takes the zone; format renders instant + zone)
+pub uninterp spec fn dt_off(dt: DateTimeL) -> FixedOffset;
+#[verifier::external_body]
+pub struct Str { _p: u8 }
+impl Str { pub uninterp spec fn bytes(&self) -> Seq<u8>; }
+#[verifier::external_body]
+pub struct DelayedFormat { _p: u8 }
+#[verifier::external_body]
+pub struct FmtError { _p: u8 }
+impl DelayedFormat {
+    pub uninterp spec fn text(&self) -> Seq<u8>;
+    // assumed: formatting cannot fail (the --prepend-dt-format value was validated at startup)
+    #[verifier::external_body]
+    pub fn write_to(&self, w: &mut String) -> (r: core::result::Result<(), FmtError>)
+        ensures r is Ok, final(w).bytes() == old(w).bytes() + self.text()
+    { unimplemented!() }
+    #[verifier::external_body]
+    pub fn to_string(&self) -> (r: String) ensures r.bytes() == self.text() { unimplemented!() }
+}
+impl String {
+    #[verifier::external_body]
+    pub fn as_str(&self) -> (r: &Str) ensures r.bytes() == self.bytes() { unimplemented!() }
+    #[verifier::external_body]
+    pub fn with_capacity(n: usize) -> (r: String) ensures r.bytes() == Seq::<u8>::empty() { unimplemented!() }
+}
+impl FixedOffset {
+    pub uninterp spec fn lmu(&self) -> int;
+    #[verifier::external_body]
+    pub fn local_minus_utc(&self) -> (r: i32) ensures r as int == self.lmu() { unimplemented!() }
+    #[verifier::external_body]
+    pub fn utc_minus_local(&self) -> (r: i32) ensures r as int == -self.lmu() { unimplemented!() }
+}
+impl DateTimeL {
+    #[verifier::external_body]
+    pub fn with_timezone(&self, tz: &FixedOffset) -> (r: DateTimeL) ensures instant(r) == instant(*self), dt_off(r) == *tz { unimplemented!() }
+    #[verifier::external_body]
+    pub fn offset(&self) -> (r: &FixedOffset) ensures *r == dt_off(*self) { unimplemented!() }
+    #[verifier::external_body]
+    pub fn format(&self, fmt: &Str) -> (r: DelayedFormat) ensures r.text() == chrono_text(fmt.bytes(), dt_off(*self), instant(*self)) { unimplemented!() }
+}
+//@cut type kind=const path=src/printer/printers.rs name=CLI_OPT_PREPEND_FMT_CHARLEN
+//@end
+
 
 impl PrinterLogMessage {
     pub open spec fn pf(&self) -> Seq<u8> { self.prepend_file.unwrap().bytes() }
 
-    #[verifier::external_body]
-    fn datetime_to_string_fixedstruct(&self, fixedstruct: &FixedStruct) -> (r: String)
-        ensures r.bytes() == dt_text(self.prepend_date_format.bytes(), fixedstruct.dt_spec())
-    { unimplemented!() }
-
-    #[verifier::external_body]
-    fn datetime_to_string_sysline(&self, syslinep: &SyslineP) -> (r: String)
-        ensures r.bytes() == dt_text(self.prepend_date_format.bytes(), syslinep.dt)
-    { unimplemented!() }
+//@cut fn path=src/printer/printers.rs impl=PrinterLogMessage name=datetime_to_string_fixedstruct ret=r
+//@spec
+    // C13: the datetime field is the message's own instant rendered in the requested zone under the requested format
+    ensures r.bytes() == dt_text(self.prepend_date_format.bytes(), self.prepend_date_offset, fixedstruct.dt_spec())
+//@end
+//@cut fn path=src/printer/printers.rs impl=PrinterLogMessage name=datetime_to_string_sysline ret=r
+//@spec
+    ensures r.bytes() == dt_text(self.prepend_date_format.bytes(), self.prepend_date_offset, syslinep.dt)
+//@end
 
 //@ifunit PRN
 //@cut fn path=src/printer/printers.rs impl=PrinterLogMessage name=print_line ret=r
@@ -940,7 +992,7 @@ impl PrinterLogMessage {
     /// C13: per-line prefix of a text message = [file-name field] ++ [datetime field], in that order
     pub open spec fn sys_prefix(&self, m: &SyslineP, with_file: bool, with_date: bool) -> Seq<u8> {
         (if with_file { self.pf() } else { Seq::<u8>::empty() })
-        + (if with_date { dt_text(self.prepend_date_format.bytes(), m.dt) } else { Seq::<u8>::empty() })
+        + (if with_date { dt_text(self.prepend_date_format.bytes(), self.prepend_date_offset, m.dt) } else { Seq::<u8>::empty() })
     }
 
 //@cut fn path=src/printer/printers.rs impl=PrinterLogMessage name=print_sysline_ ret=r
@@ -1025,7 +1077,7 @@ impl PrinterLogMessage {
                 forall|i: int| 0 <= i < syslinep.lines@.len() ==> *it.seq()[i] == syslinep.lines@[i],
                 0 <= it.index@ <= it.seq().len(),
                 self.same_config(old(self)), self.same_color_state(old(self)), self.buffer@.len() <= usize::MAX,
-                dtb@ == dt_text(self.prepend_date_format.bytes(), syslinep.dt),
+                dtb@ == dt_text(self.prepend_date_format.bytes(), self.prepend_date_offset, syslinep.dt),
                 lines_payload(self.sys_prefix(syslinep, false, true), syslinep.lines@).len() <= usize::MAX, total_parts(syslinep.lines@) * 2 + 4 < usize::MAX,
                 stdout_lock.view() + self.buffer@ == lines_payload(self.sys_prefix(syslinep, false, true), syslinep.lines@.take(it.index@ as int)),
                 printed as int == stdout_lock.view().len(),
@@ -1146,7 +1198,7 @@ impl PrinterLogMessage {
                 forall|i: int| 0 <= i < syslinep.lines@.len() ==> *it.seq()[i] == syslinep.lines@[i],
                 0 <= it.index@ <= it.seq().len(),
                 self.same_config(old(self)), self.same_color_state(old(self)), self.buffer@.len() <= usize::MAX, self.prepend_file is Some,
-                dtb@ == dt_text(self.prepend_date_format.bytes(), syslinep.dt),
+                dtb@ == dt_text(self.prepend_date_format.bytes(), self.prepend_date_offset, syslinep.dt),
                 lines_payload(self.sys_prefix(syslinep, true, true), syslinep.lines@).len() <= usize::MAX, total_parts(syslinep.lines@) * 2 + 4 < usize::MAX,
                 stdout_lock.view() + self.buffer@ == lines_payload(self.sys_prefix(syslinep, true, true), syslinep.lines@.take(it.index@ as int)),
                 printed as int == stdout_lock.view().len(),
@@ -1195,7 +1247,7 @@ impl PrinterLogMessage {
     /// C13: payload of one accounting record = [file-name field] ++ [datetime field] ++ record text, in that order
     pub open spec fn fx_payload(&self, m: &FixedStruct, buflen: int, with_file: bool, with_date: bool) -> Seq<u8> {
         (if with_file { self.pf() } else { Seq::<u8>::empty() })
-        + (if with_date { dt_text(self.prepend_date_format.bytes(), m.dt_spec()) } else { Seq::<u8>::empty() })
+        + (if with_date { dt_text(self.prepend_date_format.bytes(), self.prepend_date_offset, m.dt_spec()) } else { Seq::<u8>::empty() })
         + m.render(buflen)
     }
     /// the colour state is untouched (non-colour printers)
@@ -1203,7 +1255,7 @@ impl PrinterLogMessage {
         self.stdout_color == o.stdout_color && self.color_spec_last == o.color_spec_last && self.same_colors(o)
     }
     pub open spec fn same_config(&self, o: &Self) -> bool {
-        self.prepend_file == o.prepend_file && self.prepend_date_format == o.prepend_date_format
+        self.prepend_file == o.prepend_file && self.prepend_date_format == o.prepend_date_format && self.prepend_date_offset == o.prepend_date_offset
         && self.do_color == o.do_color && self.do_prepend_file == o.do_prepend_file && self.do_prepend_date == o.do_prepend_date
     }
 
@@ -1379,7 +1431,7 @@ impl PrinterLogMessage {
         // C13: the payload bytes are those of the non-colour variant; per line [file][date] in the default colour, then the
         // line with (first line only) its datetime range highlighted -- a function of the message, not of block boundaries (C12)
         r is Ok ==> final(self).stdout_color.cview() == old(self).stdout_color.cview()
-            + clines((Seq::<u8>::empty() + dt_text(old(self).prepend_date_format.bytes(), syslinep.dt)), cid(old(self).color_spec_default), syslinep.lines@, syslinep.dt_beg as int, syslinep.dt_end as int,
+            + clines((Seq::<u8>::empty() + dt_text(old(self).prepend_date_format.bytes(), old(self).prepend_date_offset, syslinep.dt)), cid(old(self).color_spec_default), syslinep.lines@, syslinep.dt_beg as int, syslinep.dt_end as int,
                      cid(old(self).color_spec_sysline), cid(old(self).color_spec_datetime), cid(old(self).color_spec_sysline)),
         // C19: the count returned is the number of payload bytes written
         r is Ok ==> r->Ok_0.0 as int == lines_payload(old(self).sys_prefix(syslinep, false, true), syslinep.lines@).len(),
@@ -1394,7 +1446,7 @@ impl PrinterLogMessage {
     proof { lemma_streams_empty(&self.stdout_color, self.buffer@); }
     let ghost c_cont = c_sys;
 //@before "let mut it = vstd"
-    let ghost pre = (Seq::<u8>::empty() + dt_text(self.prepend_date_format.bytes(), syslinep.dt));
+    let ghost pre = (Seq::<u8>::empty() + dt_text(self.prepend_date_format.bytes(), self.prepend_date_offset, syslinep.dt));
     proof { lemma_streams_empty(&self.stdout_color, self.buffer@); assert(syslinep.lines@.take(0) =~= Seq::<LineP>::empty()); assert(cv0 + Seq::<(u8, int)>::empty() =~= cv0); }
 //@loop 1
             invariant_except_break
@@ -1408,8 +1460,8 @@ impl PrinterLogMessage {
                 self.same_config(&self0), self.same_colors(&self0), self0 == *old(self),
                 c_def == cid(self.color_spec_default), c_sys == cid(self.color_spec_sysline), c_dt == cid(self.color_spec_datetime),
                 c_cont == c_sys,
-                pre == (Seq::<u8>::empty() + dt_text(self.prepend_date_format.bytes(), syslinep.dt)),
-                dtb@ == dt_text(self.prepend_date_format.bytes(), syslinep.dt),
+                pre == (Seq::<u8>::empty() + dt_text(self.prepend_date_format.bytes(), self.prepend_date_offset, syslinep.dt)),
+                dtb@ == dt_text(self.prepend_date_format.bytes(), self.prepend_date_offset, syslinep.dt),
                 lines_payload(self.sys_prefix(syslinep, false, true), syslinep.lines@).len() <= usize::MAX, total_parts(syslinep.lines@) * 15 + 16 < usize::MAX,
                 self.col_ok(), self.buffer@.len() == 0,
                 line_first == (it.index@ == 0),
@@ -1547,7 +1599,7 @@ impl PrinterLogMessage {
         // C13: the payload bytes are those of the non-colour variant; per line [file][date] in the default colour, then the
         // line with (first line only) its datetime range highlighted -- a function of the message, not of block boundaries (C12)
         r is Ok ==> final(self).stdout_color.cview() == old(self).stdout_color.cview()
-            + clines((old(self).pf() + dt_text(old(self).prepend_date_format.bytes(), syslinep.dt)), cid(old(self).color_spec_default), syslinep.lines@, syslinep.dt_beg as int, syslinep.dt_end as int,
+            + clines((old(self).pf() + dt_text(old(self).prepend_date_format.bytes(), old(self).prepend_date_offset, syslinep.dt)), cid(old(self).color_spec_default), syslinep.lines@, syslinep.dt_beg as int, syslinep.dt_end as int,
                      cid(old(self).color_spec_sysline), cid(old(self).color_spec_datetime), cid(old(self).color_spec_sysline)),
         // C19: the count returned is the number of payload bytes written
         r is Ok ==> r->Ok_0.0 as int == lines_payload(old(self).sys_prefix(syslinep, true, true), syslinep.lines@).len(),
@@ -1562,7 +1614,7 @@ impl PrinterLogMessage {
     proof { lemma_streams_empty(&self.stdout_color, self.buffer@); }
     let ghost c_cont = c_sys;
 //@before "let mut it = vstd"
-    let ghost pre = (self.pf() + dt_text(self.prepend_date_format.bytes(), syslinep.dt));
+    let ghost pre = (self.pf() + dt_text(self.prepend_date_format.bytes(), self.prepend_date_offset, syslinep.dt));
     proof { lemma_streams_empty(&self.stdout_color, self.buffer@); assert(syslinep.lines@.take(0) =~= Seq::<LineP>::empty()); assert(cv0 + Seq::<(u8, int)>::empty() =~= cv0); }
 //@loop 1
             invariant_except_break
@@ -1576,8 +1628,8 @@ impl PrinterLogMessage {
                 self.same_config(&self0), self.same_colors(&self0), self0 == *old(self),
                 c_def == cid(self.color_spec_default), c_sys == cid(self.color_spec_sysline), c_dt == cid(self.color_spec_datetime),
                 c_cont == c_sys,
-                pre == (self.pf() + dt_text(self.prepend_date_format.bytes(), syslinep.dt)),
-                dtb@ == dt_text(self.prepend_date_format.bytes(), syslinep.dt),
+                pre == (self.pf() + dt_text(self.prepend_date_format.bytes(), self.prepend_date_offset, syslinep.dt)),
+                dtb@ == dt_text(self.prepend_date_format.bytes(), self.prepend_date_offset, syslinep.dt),
                 prepend_file@ == self.pf(), self.prepend_file is Some,
                 lines_payload(self.sys_prefix(syslinep, true, true), syslinep.lines@).len() <= usize::MAX, total_parts(syslinep.lines@) * 15 + 16 < usize::MAX,
                 self.col_ok(), self.buffer@.len() == 0,
@@ -1691,7 +1743,7 @@ impl PrinterLogMessage {
         r is Ok ==> final(self).buffer@.len() == 0 && final(self).col_ok() && final(self).stdout_color.cur() == cid(old(self).color_spec_default),
         // C13: colour is pure decoration -- the payload bytes are those of the non-colour variant: [file][date] in the
         // default colour, then the record text with its own datetime range highlighted
-        r is Ok ==> final(self).stdout_color.cview() == old(self).stdout_color.cview() + paint((Seq::<u8>::empty() + dt_text(old(self).prepend_date_format.bytes(), fixedstruct.dt_spec())), cid(old(self).color_spec_default))
+        r is Ok ==> final(self).stdout_color.cview() == old(self).stdout_color.cview() + paint((Seq::<u8>::empty() + dt_text(old(self).prepend_date_format.bytes(), old(self).prepend_date_offset, fixedstruct.dt_spec())), cid(old(self).color_spec_default))
             + paint_hl(fixedstruct.render(old(buffer)@.len() as int), fixedstruct.hl_beg(old(buffer)@.len() as int) as int, fixedstruct.hl_end(old(buffer)@.len() as int) as int,
                        cid(old(self).color_spec_sysline), cid(old(self).color_spec_datetime)),
         // C19: the count returned is the number of payload bytes written
@@ -1703,7 +1755,7 @@ impl PrinterLogMessage {
     let ghost c_dt = cid(self.color_spec_datetime);
     let ghost buflen = buffer@.len() as int;
 //@before "let stdout_lock = self.stdout.lock();"
-    let ghost pre = (Seq::<u8>::empty() + dt_text(self.prepend_date_format.bytes(), fixedstruct.dt_spec()));
+    let ghost pre = (Seq::<u8>::empty() + dt_text(self.prepend_date_format.bytes(), self.prepend_date_offset, fixedstruct.dt_spec()));
     let ghost rr = fixedstruct.render(buflen);
     let ghost hl = paint_hl(rr, beg as int, end as int, c_sys, c_dt);
     let ghost cv1 = cv0 + paint(pre, c_def);
@@ -1833,7 +1885,7 @@ impl PrinterLogMessage {
         r is Ok ==> final(self).buffer@.len() == 0 && final(self).col_ok() && final(self).stdout_color.cur() == cid(old(self).color_spec_default),
         // C13: colour is pure decoration -- the payload bytes are those of the non-colour variant: [file][date] in the
         // default colour, then the record text with its own datetime range highlighted
-        r is Ok ==> final(self).stdout_color.cview() == old(self).stdout_color.cview() + paint((old(self).pf() + dt_text(old(self).prepend_date_format.bytes(), fixedstruct.dt_spec())), cid(old(self).color_spec_default))
+        r is Ok ==> final(self).stdout_color.cview() == old(self).stdout_color.cview() + paint((old(self).pf() + dt_text(old(self).prepend_date_format.bytes(), old(self).prepend_date_offset, fixedstruct.dt_spec())), cid(old(self).color_spec_default))
             + paint_hl(fixedstruct.render(old(buffer)@.len() as int), fixedstruct.hl_beg(old(buffer)@.len() as int) as int, fixedstruct.hl_end(old(buffer)@.len() as int) as int,
                        cid(old(self).color_spec_sysline), cid(old(self).color_spec_datetime)),
         // C19: the count returned is the number of payload bytes written
@@ -1845,7 +1897,7 @@ impl PrinterLogMessage {
     let ghost c_dt = cid(self.color_spec_datetime);
     let ghost buflen = buffer@.len() as int;
 //@before "let stdout_lock = self.stdout.lock();"
-    let ghost pre = (self.pf() + dt_text(self.prepend_date_format.bytes(), fixedstruct.dt_spec()));
+    let ghost pre = (self.pf() + dt_text(self.prepend_date_format.bytes(), self.prepend_date_offset, fixedstruct.dt_spec()));
     let ghost rr = fixedstruct.render(buflen);
     let ghost hl = paint_hl(rr, beg as int, end as int, c_sys, c_dt);
     let ghost cv1 = cv0 + paint(pre, c_def);
@@ -1919,17 +1971,17 @@ impl PrinterLogMessage {
 //@end
 //@endif
 //@ifunit PRNX
-    #[verifier::external_body]
-    fn datetime_to_string_evtx(&self, evtx: &Evtx) -> (r: String)
-        ensures r.bytes() == dt_text(self.prepend_date_format.bytes(), evtx.dt_spec())
-    { unimplemented!() }
-    #[verifier::external_body]
-    fn datetime_to_string_journalentry(&self, journalentry: &JournalEntry) -> (r: String)
-        ensures r.bytes() == dt_text(self.prepend_date_format.bytes(), journalentry.dt_spec())
-    { unimplemented!() }
+//@cut fn path=src/printer/printers.rs impl=PrinterLogMessage name=datetime_to_string_evtx ret=r
+//@spec
+    ensures r.bytes() == dt_text(self.prepend_date_format.bytes(), self.prepend_date_offset, evtx.dt_spec())
+//@end
+//@cut fn path=src/printer/printers.rs impl=PrinterLogMessage name=datetime_to_string_journalentry ret=r
+//@spec
+    ensures r.bytes() == dt_text(self.prepend_date_format.bytes(), self.prepend_date_offset, journalentry.dt_spec())
+//@end
     /// the prefix of every line of an event-log / journal message
     pub open spec fn x_prefix(&self, dt: DateTimeL, with_file: bool, with_date: bool) -> Seq<u8> {
-        (if with_file { self.pf() } else { Seq::<u8>::empty() }) + (if with_date { dt_text(self.prepend_date_format.bytes(), dt) } else { Seq::<u8>::empty() })
+        (if with_file { self.pf() } else { Seq::<u8>::empty() }) + (if with_date { dt_text(self.prepend_date_format.bytes(), self.prepend_date_offset, dt) } else { Seq::<u8>::empty() })
     }
 
 //@cut fn path=src/printer/printers.rs impl=PrinterLogMessage name=print_evtx_ ret=r
@@ -1984,7 +2036,7 @@ impl PrinterLogMessage {
             data@ == evtx.data(), data@.len() <= usize::MAX, 0 <= a <= data@.len(),
             pre == self.x_prefix(evtx.dt_spec(), do_prependfile, do_prependdate), total == epayload(pre, data@),
             prepend_file@ == (if do_prependfile { self.pf() } else { Seq::<u8>::empty() }),
-            prepend_date@ == (if do_prependdate { dt_text(self.prepend_date_format.bytes(), evtx.dt_spec()) } else { Seq::<u8>::empty() }),
+            prepend_date@ == (if do_prependdate { dt_text(self.prepend_date_format.bytes(), self.prepend_date_offset, evtx.dt_spec()) } else { Seq::<u8>::empty() }),
             // what has gone out so far ++ what the remaining text will contribute = the payload
             vs(&stdout_lock, self.buffer@) + epayload(pre, data@.skip(a as int)) == total,
             printed + self.buffer@.len() == vs(&stdout_lock, self.buffer@).len(), vs(&stdout_lock, self.buffer@).len() <= total.len(),
@@ -2037,7 +2089,7 @@ impl PrinterLogMessage {
             data@ == journalentry.data(), data@.len() <= usize::MAX, 0 <= a <= data@.len(),
             pre == self.x_prefix(journalentry.dt_spec(), do_prependfile, do_prependdate), total == epayload(pre, data@),
             prepend_file@ == (if do_prependfile { self.pf() } else { Seq::<u8>::empty() }),
-            prepend_date@ == (if do_prependdate { dt_text(self.prepend_date_format.bytes(), journalentry.dt_spec()) } else { Seq::<u8>::empty() }),
+            prepend_date@ == (if do_prependdate { dt_text(self.prepend_date_format.bytes(), self.prepend_date_offset, journalentry.dt_spec()) } else { Seq::<u8>::empty() }),
             // what has gone out so far ++ what the remaining text will contribute = the payload
             vs(&stdout_lock, self.buffer@) + epayload(pre, data@.skip(a as int)) == total,
             printed + self.buffer@.len() == vs(&stdout_lock, self.buffer@).len(), vs(&stdout_lock, self.buffer@).len() <= total.len(),
